@@ -1,13 +1,15 @@
 # check configuration for C17 (loaded by bin/vconfig.py)
 CHECK = {'level': 'fault_enumeration',
- 'rule': 'rapidcheck draws a scenario = one public API call (70 scenarios covering the value, packet, CIF, container, loop, iterator, parse, write and utility '
+ 'rule': 'rapidcheck draws a scenario = one public API call (88 scenarios covering the value, packet, CIF, container, loop, iterator, parse, write and utility '
          'functions of cif.h) with generated argument shapes (value trees, NULL/non-NULL out-parameters, category/no category ...) on a fixture CIF; the call is '
          'first run fault-free to count the allocations it requests (library side through the forced-include shim, storage-engine side through an SQLite '
-         'allocator wrapper), then re-run once per allocation with exactly that allocation failing (up to 400 fault points per scenario); non-trivial = a '
+         'allocator wrapper), then re-run once per allocation with exactly that allocation failing (at most 400 fault points per case; calls with more allocations -- parse, write -- are sampled evenly over the whole call with a per-case offset, so that many cases cover every point); non-trivial = a '
          'scenario with at least two library allocations (a partially built state to unwind); distinct = hash of (scenario, arguments, allocator side)',
  'assumptions': ['one failure at a time; ICU-internal allocations are not failed (outside the statement)',
                  'a call that survives the failed allocation must return the fault-free code and leave the fault-free state',
-                 'after a failed iterator call only "the iterator can be aborted and the CIF read" is required (documented as implementation-defined while an iterator is open)',
+                 'after a failed iterator call "the iterator can be aborted and the CIF read" is required; in addition a failed cif_pktitr_next_packet, repeated with memory available, must deliver the packet the fault-free run delivers, and after a library-side failure of a read-only call made during an iteration the iterator must still close and commit its pending update (storage-engine side: SQLite rolls the whole transaction back on out-of-memory, so only the first clause applies there)',
+                 'after any failed call on a CIF, creating and destroying an unrelated block must work (a transaction left open makes it fail)',
+                 'first-use scenarios take their "before" snapshot from an identical twin fixture, so that the statement is prepared inside the faulted call',
                  'allocation counts vary slightly between runs (prepared-statement caches): a fault index that is not reached is skipped, not failed'],
  'min_evaluations': 100,
  'technique': 'fault injection driven by property-based scenario generation: exhaustive enumeration of single allocation failures inside each generated API call, with a model-free differential oracle (fault-free run vs faulted run vs retry)',
